@@ -5,13 +5,15 @@ fields `[id, flags, p, deltas, ops]`:
 * `flags`: `pp` = the code as it is (`Cfg.pinned`), else two characters `0`/`1`: `flushAtProve`, `unitCoeff`
 * `deltas`: `d1,d2,d3` of context `main`
 * `ops`: `;`-separated (possibly empty), each one of
-  `p:<v>` | `u:<v>` | `c:<A>#<B>#<C>` | `e:<fn>:<d1>,<d2>,<d3>:<args>` | `l:<rndv>,<r2a>,<r2b>:<args>`
+  `p:<v>` | `u:<v>` | `c:<A>#<B>#<C>` | `e:<fn>:<d1>,<d2>,<d3>:<args>` | `l:<rndv>,<r2a>,<r2b>:<args>` |
+  `g:` (no guard in effect) | `g:<value>~<lc>` (the guard now in effect) | `a` (the body on top of the stack raised)
   where a linear combination is a `,`-separated list of `coef@ctx/name` (possibly empty) and `<args>`
   is a `^`-separated list (possibly empty) of `K~value~lc`, `K` one of `L` (LinComb), `B`, `X`.
 output `id|E=…|F=n|W=…|V=…|X=status|S=…|P=…|N=…` with lines separated by `;`:
 `E` all lines written to the equation file, `F` how many of them are on disk when `prove()` reads the
 file back, `W`/`V` wire and I/O file lines, `X` `ok` or the error of `qapsplit`, `S` schedule file,
-`P` `^`-separated `fname=lines` per-function files, `N` `,`-separated `call=fname`.
+`P` `^`-separated `fname=lines` per-function files, `N` `,`-separated `call=fname`, `I` `^`-separated
+`fname=<digest input>`: the exact text MD5 is applied to for the signature of `fname` (`Qaptools.digestInput`).
 -/
 namespace Pysnark.ProtoQaptools
 open Pysnark.Qaptools Pysnark.QapEq
@@ -23,9 +25,11 @@ def mapOpt {α β : Type} (f : α → Option β) : List α → Option (List β)
     | some b, some bs => some (b :: bs)
     | _, _ => none
 
+/-- `ctx/local`: the local part never contains `/` (it is a counter, `o_<n>`, `rnd<i>_<n>`, `delta<x>`, `onex`, `one`),
+the context may (a function name with `/`), so the name is cut at its LAST `/` -/
 def parseWire (s : String) : Option WireName :=
-  match s.splitOn "/" with
-  | [c, l] => some (c, l)
+  match (s.splitOn "/").reverse with
+  | l :: c :: cs => some ("/".intercalate (c :: cs).reverse, l)
   | _ => none
 
 def parseTerm (s : String) : Option (Int × WireName) :=
@@ -80,6 +84,16 @@ def parseOp (s : String) : Option Op :=
     match parse3 r, parseArgs args with
     | some (a, b, c), some args => some (.leave args a b c)
     | _, _ => none
+  | ["g", g] =>
+    if g = "" then some (.guard none)
+    else
+      match g.splitOn "~" with
+      | [v, sg] =>
+        match v.toInt?, parseSig sg with
+        | some v, some sg => some (.guard (some ⟨v, sg⟩))
+        | _, _ => none
+      | _ => none
+  | ["a"] => some .abort
   | _ => none
 
 def parseOps (s : String) : Option (List Op) :=
@@ -90,8 +104,8 @@ def renderLines (ls : List Line) : String := ";".intercalate (ls.map Line.render
 def renderVals (ws : List (WireName × Int)) : String :=
   ";".intercalate (ws.map fun wv => wv.1.1 ++ "/" ++ wv.1.2 ++ ": " ++ toString wv.2)
 
-/-- stand-in for the digest: the text MD5 is applied to (`m.update` per line = concatenation) -/
-def preimage (q : List Line) : String := String.join (q.map Line.render)
+/-- stand-in for the digest: the text MD5 is applied to (`Qaptools.digestInput`) -/
+def preimage (q : List Line) : String := digestInput q
 
 def errStr : SplitErr → String
   | .inconsistentContexts => "inconsistent-contexts"
@@ -110,14 +124,15 @@ def handleQap (fields : List String) : String :=
       let s := run cfg d1 d2 d3 ops
       let disk := onDisk cfg s
       let head := s!"{id}|E={renderLines s.eqs}|F={disk.length}|W={renderVals s.wires}|V={renderVals s.ios}"
-      match qapsplit preimage disk with
+      match proveText preimage cfg s with
       | .error e =>
         -- the schedule file holds what was written before the error
-        s!"{head}|X={errStr e}|S=|P=|N="
+        s!"{head}|X={errStr e}|S=|P=|N=|I="
       | .ok out =>
         let files := "^".intercalate (out.files.map fun fq => fq.1 ++ "=" ++ renderLines fq.2)
         let fns := ",".intercalate (out.acc.fns.map fun cf => cf.1 ++ "=" ++ cf.2)
-        s!"{head}|X=ok|S={renderLines out.acc.schedule}|P={files}|N={fns}"
+        let inputs := "^".intercalate (out.sigs.map fun fd => fd.1 ++ "=" ++ fd.2)
+        s!"{head}|X=ok|S={renderLines out.acc.schedule}|P={files}|N={fns}|I={inputs}"
     | _, _, _ => s!"{id}|bad"
   | _ => "bad-line"
 
